@@ -3,5 +3,7 @@ CONSTANTS Coords <- QCoords
   PEnergies <- QPEnergies
   Shapes <- QShapes
   PTols <- QPTols
+  PScales <- QPScales
 INVARIANT IdenticalPopulationConverged
+INVARIANT PopHomogeneous
 INVARIANT Emit
